@@ -238,7 +238,7 @@ pub fn run(run: &Run) -> i32 {
         let names = dec::names();
         let mut matrices = 0usize;
         let small_sets: Vec<(usize, usize, Vec<f64>)> = if run.thorough() {
-            vec![(2, 3, FULL[..12].to_vec()), (2, 4, A9.to_vec()), (3, 4, A5.to_vec()), (3, 5, A3.to_vec()), (2, 5, A5.to_vec())]
+            vec![(2, 3, FULL[..12].to_vec()), (2, 4, A9.to_vec()), (3, 4, A5.to_vec()), (3, 5, A3.to_vec()), (2, 5, A5.to_vec()), (2, 6, A3.to_vec()), (4, 4, A3.to_vec())]
         } else {
             vec![(2, 3, A9.to_vec()), (2, 4, A5.to_vec()), (3, 4, A3.to_vec())]
         };
